@@ -230,7 +230,7 @@ def ill_formed(case_or_reset, stims):
 
 def matches(kf, prop, flag, root, cfg, stims):
     m = kf['match']
-    if kf['property'] != prop:
+    if kf['property'] != prop or 'tok_op_any' in m or m.get('kind') == 'conc':      # (item-token / concurrent findings have their own matchers)
         return False
     if 'flag' in m and m['flag'] != flag:
         return False
@@ -294,6 +294,32 @@ def write_evidence(prop, evidence, lines, summary):
     for l in lines:
         print(l)
     print(summary)
+
+
+def run_tok(work, harness):
+    """C17 'any emitted item': the item-token runs (harness tok-all) judged by TLC (spec/TokTrace.tla); returns the verdict lines"""
+    path = work + '/tok.ndjson'
+    r = subprocess.run(['timeout', '600', harness, 'tok-all'], capture_output=True, text=True)
+    if r.returncode != 0:
+        raise ToolError('harness tok-all failed: ' + (r.stderr or r.stdout)[-1500:])
+    with open(path, 'w') as f:
+        f.write('\n'.join(x for x in r.stdout.splitlines() if x.startswith('{')) + '\n')
+    gen = work + '/gen'
+    cfg = gen + '/tok.cfg'
+    with open(cfg, 'w') as f:
+        f.write('SPECIFICATION Spec\nPOSTCONDITION Consumed\nCHECK_DEADLOCK FALSE\n')
+    env = dict(os.environ)
+    env['TRACE'] = path
+    env['JAVA_TOOL_OPTIONS'] = '-Xss512m -Xmx2g'
+    rr = subprocess.run(['timeout', '600'] + tlc_cmd(1, work + '/md-tok', cfg, 'TokTrace.tla'), cwd=gen, capture_output=True, text=True, env=env)
+    if 'Model checking completed. No error has been found.' not in rr.stdout:
+        raise ToolError('TLC failed on TokTrace: ' + rr.stdout[-1200:])
+    out = []
+    for line in rr.stdout.splitlines():
+        m = re.match(r'^"(\{.*\})"$', line.strip())
+        if m:
+            out.append(json.loads(m.group(1).replace('\\"', '"')))
+    return out
 
 
 def run_fuzz(work, harness, n, seed, ill):
@@ -421,6 +447,27 @@ def run_seq_check(prop, tier, flags, plan, seed, design_ref, extra_assumptions=N
             out_lines.append('KNOWN-FINDING: property=%s %s [%s; %d executions]' % (prop, kf['what'], kid, cnt))
         if drift:
             out_lines.append('MODEL-DRIFT property=%s %d recorded executions are accepted/rejected by L2 as reported but differ from the L1 model (TLC exhaustive result no longer transfers)' % (prop, drift))
+        tok = None
+        if prop == 'C17':
+            # "any emitted item": items that carry tokens, every item-holding operator x the three ways of ending
+            tv = run_tok(work, harness)
+            tok = {'runs': len(tv), 'operators': sorted(set(x['op'] for x in tv)), 'rejected': [x for x in tv if x['verdict'] != 'ok']}
+            seen_tok = set()
+            for x in tok['rejected']:
+                kf = next((k for k in known if k['property'] == 'C17' and x['op'] in k['match'].get('tok_op_any', [])), None)
+                if kf:
+                    if kf['id'] not in seen_tok:
+                        seen_tok.add(kf['id'])
+                        with open('%s/replays/%s/%s.json' % (V, prop, kf['id']), 'w') as f:
+                            json.dump({'property': prop, 'monitor': 'C17', 'known_finding': kf['id'], 'kind': 'tok', 'op': x['op'], 'ending': x['ending'], 'observed': x}, f, indent=1)
+                        out_lines.append('KNOWN-FINDING: property=%s %s [%s; %d runs]' % (prop, kf['what'], kf['id'], sum(1 for y in tok['rejected'] if y['op'] in kf['match'].get('tok_op_any', []))))
+                else:
+                    hh = hashlib.sha256(('tok' + x['op'] + x['ending']).encode()).hexdigest()[:12]
+                    path = '%s/replays/%s/%s.json' % (V, prop, hh)
+                    with open(path, 'w') as f:
+                        json.dump({'property': prop, 'monitor': 'C17', 'kind': 'tok', 'op': x['op'], 'ending': x['ending'], 'observed': x}, f, indent=1)
+                    out_lines.append('VIOLATION property=%s replay=%s' % (prop, path))
+                    violations.append(('C17', x, None, None))
         samples = []
         for tid in list(traces)[:3]:
             samples.append({'pipeline': traces[tid][0]['root'], 'stimuli_and_observations': [{'st': x['st'], 'obs': x['obs'], 'fin': x['fin']} for x in traces[tid] if x['ev'] == 'stim'],
@@ -438,7 +485,7 @@ def run_seq_check(prop, tier, flags, plan, seed, design_ref, extra_assumptions=N
                 'cases_agreeing_with_L1_model': tot['agree'], 'cases_differing_from_L1_model': tot['differ'],
                 'predicted_stuck_or_budget_verdicts_confirmed': tot['nonok_confirmed'],
                 'operators_exercised': ops, 'monitors': flags,
-                'random_pipelines': fz,
+                'random_pipelines': fz, 'item_token_runs': tok,
                 'l2_rejections_known': {k: c[0] for k, c in kf_hits.items()}, 'l2_rejections_new': len(violations), 'new_violation_classes': vsum, 'model_drift_traces': drift,
             },
             'assumptions': ['bounded: histories of at most max_stimuli stimuli, items from {0,1,2}, parameters as listed in spec/RxSeqMC.tla',
